@@ -21,9 +21,12 @@ What is modelled
   in ns).  The harness supplies their answers with each case; theorems hold for every `Ext`.
 * the `ValueBinder` state machine: `errors` (only its length is observable), `failFast`,
   scalar / slice / delimiter calls, `Must*`, `BindError`, `BindErrors`, `FailFast`.
-* the struct binder on a flat destination (one entry per tagged field for which the request
-  carries a key): scalar, pointer, slice, slice of pointers, pointer to slice; first error
-  aborts the walk.  (The walk over arbitrary shapes, tags and sources is C09's model.)
+* the struct binder on a flat destination (one entry per tagged field, with the value it holds
+  BEFORE binding — destinations may be pre-populated — and the texts the source carries for its
+  key, if any): scalar, pointer, slice, slice of pointers, pointer to slice; a present key
+  always overwrites (empty text stores 0 / false / 0.0); first error aborts the walk; two
+  sources in sequence (`structBind2`: path params, then the query string, as `Bind` does on
+  GET).  (The walk over arbitrary shapes, tags and sources is C09's model.)
 
 Platform assumption: `int`/`uint` are 64 bits (`strconv.IntSize = 64`).
 -/
@@ -380,18 +383,19 @@ inductive Wrap where
   | scalar | ptr | slice | sliceOfPtr | ptrToSlice
 deriving DecidableEq, Repr, Inhabited
 
-structure Field where
-  wrap : Wrap
-  elem : Elem
-  values : List (List Char)     -- data[tag]
-deriving Repr, Inhabited
-
 inductive FVal where
   | one (v : SVal)              -- scalar, or non-nil pointer to a scalar
   | nil                         -- nil pointer / nil slice
   | many (vs : List SVal)       -- slice (elements dereferenced)
   | ptrNil                      -- non-nil pointer to a nil slice
 deriving DecidableEq, Repr, Inhabited
+
+structure Field where
+  wrap : Wrap
+  elem : Elem
+  init : FVal                            -- what the field holds before binding (destinations may be pre-populated)
+  values : Option (List (List Char))     -- data[tag]; none = the source has no key for this field
+deriving Repr, Inhabited
 
 /-- `setIntField` & co: empty text is replaced by "0" / "false" / "0.0" before parsing -/
 def emptyDefault : Elem → List Char
@@ -417,45 +421,57 @@ inductive FOut where
   | panic               -- `inputValue[0]` on an empty value list (not producible by net/http)
 deriving DecidableEq, Repr, Inhabited
 
-def fieldZero : Wrap → Elem → FVal
-  | .scalar, e => .one (zeroOf e)
-  | _, _ => .nil
-
-/-- one iteration of the field loop of `bindData` for a field whose key exists in the data -/
+/-- one iteration of the field loop of `bindData`.  A field whose key is absent is skipped.
+    Otherwise the (possibly empty) text is converted and STORED, whatever the field held before:
+    `""` stores 0 / false / 0.0.  On a conversion error the field keeps its value, except that
+    `unmarshalInputToField` has already allocated a nil pointer. -/
 def bindField (ext : Ext) (f : Field) : FOut :=
   match f.values with
-  | [] => .panic
-  | v0 :: _ =>
+  | none => .ok f.init
+  | some [] => .panic
+  | some (v0 :: vs) =>
     match f.wrap with
     | .scalar =>
       match structElem ext f.elem v0 with
       | some v => .ok (.one v)
-      | none => .err (.one (zeroOf f.elem))
-    | .ptr =>          -- unmarshalInputToField allocates the pointee first
+      | none => .err f.init
+    | .ptr =>
       match structElem ext f.elem v0 with
       | some v => .ok (.one v)
-      | none => .err (.one (zeroOf f.elem))
+      | none => .err (match f.init with | .nil => .one (zeroOf f.elem) | w => w)
     | .slice | .sliceOfPtr =>
-      match structElems ext f.elem f.values with
-      | some vs => .ok (.many vs)
-      | none => .err .nil
+      match structElems ext f.elem (v0 :: vs) with
+      | some xs => .ok (.many xs)
+      | none => .err f.init
     | .ptrToSlice =>   -- pointer allocated, then the slice is built and assigned only on success
-      match structElems ext f.elem f.values with
-      | some vs => .ok (.many vs)
-      | none => .err .ptrNil
+      match structElems ext f.elem (v0 :: vs) with
+      | some xs => .ok (.many xs)
+      | none => .err (match f.init with | .nil => .ptrNil | w => w)
 
 inductive Status where
   | ok | bad | panic
 deriving DecidableEq, Repr, Inhabited
 
-/-- the field loop: fields after a failing one keep their zero value -/
+/-- the field loop: fields after a failing one keep what they held -/
 def structBind (ext : Ext) : List Field → Status × List FVal
   | [] => (.ok, [])
   | f :: fs =>
     match bindField ext f with
     | .ok v => let r := structBind ext fs; (r.1, v :: r.2)
-    | .err v => (.bad, v :: fs.map (fun g => fieldZero g.wrap g.elem))
+    | .err v => (.bad, v :: fs.map (·.init))
     | .panic => (.panic, [])
+
+/-- the same destination seen by a second source: it starts from what the first one left -/
+def rebase : List Field → List FVal → List (Option (List (List Char))) → List Field
+  | f :: fs, v :: vs, x :: xs => { f with init := v, values := x } :: rebase fs vs xs
+  | _, _, _ => []
+
+/-- `Bind` on a GET request: path params, then (only if that succeeded) the query string -/
+def structBind2 (ext : Ext) (fs : List Field) (second : List (Option (List (List Char)))) :
+    Status × List FVal :=
+  match structBind ext fs with
+  | (.ok, vals) => structBind ext (rebase fs vals second)
+  | r => r
 
 /-! ## wire -/
 open Wire
@@ -561,11 +577,21 @@ def pWrap : P Wrap := do
   | 0 => pure .scalar | 1 => pure .ptr | 2 => pure .slice | 3 => pure .sliceOfPtr
   | 4 => pure .ptrToSlice | _ => failure
 
+def pFVal : P FVal := do
+  let k ← nat
+  match k with
+  | 0 => do let v ← pSVal; pure (.one v)
+  | 1 => pure .nil
+  | 2 => do let vs ← list pSVal; pure (.many vs)
+  | 3 => pure .ptrNil
+  | _ => failure
+
 def pField : P Field := do
   let w ← pWrap
   let e ← pElem .struct
-  let vs ← list str
-  pure ⟨w, e, vs⟩
+  let i ← pFVal
+  let vs ← opt (list str)
+  pure ⟨w, e, i, vs⟩
 
 def encFVal : FVal → List String
   | .one v => "0" :: encSVal v
@@ -587,6 +613,7 @@ def extOf (t : List (Nat × List Char × Option (List Char))) : Ext := fun k s =
 inductive Case where
   | vb (failFast : Bool) (ops : List Op)
   | struct (fields : List Field)
+  | struct2 (fields : List (Field × Option (List (List Char))))
 
 def pCase : P (List (Nat × List Char × Option (List Char)) × Case) := do
   let t ← pTable
@@ -599,17 +626,24 @@ def pCase : P (List (Nat × List Char × Option (List Char)) × Case) := do
   | 1 => do
     let fs ← list pField
     pure (t, .struct fs)
+  | 2 => do
+    let fs ← list (do let f ← pField; let x ← opt (list str); pure (f, x))
+    pure (t, .struct2 fs)
   | _ => failure
 
 /-- line: `table kind …`
     * `0 failFast nops op*` → outputs of the ops, concatenated
-    * `1 nfields field*` → `status nvals fval*` -/
+    * `1 nfields field*` → `status nvals fval*`   (field = `wrap fam ty init hasKey values`)
+    * `2 nfields (field hasKey2 values2)*` → the same after path params, then query -/
 def runLine (line : String) : String :=
   match parseLine pCase line with
   | none => "bad-op"
   | some (t, .vb ff ops) => render ((vbRun (extOf t) ⟨0, ff⟩ ops).flatMap encOut)
   | some (t, .struct fs) =>
     let r := structBind (extOf t) fs
+    render (encStatus r.1 :: encList encFVal r.2)
+  | some (t, .struct2 fs) =>
+    let r := structBind2 (extOf t) (fs.map (·.1)) (fs.map (·.2))
     render (encStatus r.1 :: encList encFVal r.2)
 
 end C08
